@@ -181,6 +181,26 @@ def build_directed(spec):
         present = [c for c, b in zip(cands, bits) if b]
         if not present:
             return None
+        if S.symbolic:
+            # nothing symbolic remains once the bits are decided; CrossHair's set proxies iterate in another order
+            # than real sets, which matters to code that turns sets into tuples: run natively
+            from crosshair.tracers import NoTracing
+
+            with NoTracing():
+                return body(present)
+        return body(present)
+
+    def body(present):
+        import contextlib
+        import io
+
+        import hypergraphx
+        from hypergraphx.motifs.directed_motifs import compute_directed_motifs
+
+        def cen(hh):
+            with contextlib.redirect_stdout(io.StringIO()):
+                return compute_directed_motifs(hh, order=order, runs_config_model=0)["observed"]
+
         h = hypergraphx.DirectedHypergraph(present)
         obs = cen(h)
         keys = [k for k, _ in obs]
